@@ -541,6 +541,35 @@ def _create_sbml_derived_parameters(*, model: Model, sbml_model: libsbml.Model) 
         _create_derived_parameter(sbml_model, name, dp)
 
 
+def _free_reference_id(
+    model: Model,
+    sbml_model: libsbml.Model,
+    *,
+    compound_id: str,
+    rxn_name: str,
+) -> str:
+    """Id for a species reference with computed stoichiometry.
+
+    Every such reference needs its own assignment rule, so the id must not be used
+    by another reaction's reference nor by any component of the model itself (a
+    re-exported model contains the references of the first export as derived values).
+    """
+    taken = model.ids
+    candidates = [f"{compound_id}ref", f"{compound_id}ref_{rxn_name}"]
+    i = 2
+    while True:
+        for reference in candidates:
+            sid = _convert_id_to_sbml(id_=reference, prefix="AR")
+            if (
+                reference not in taken
+                and sbml_model.getAssignmentRuleByVariable(sid) is None
+                and sbml_model.getElementBySId(sid) is None
+            ):
+                return reference
+        candidates = [f"{compound_id}ref_{rxn_name}_{i}"]
+        i += 1
+
+
 def _create_sbml_reactions(
     *,
     model: Model,
@@ -567,13 +596,9 @@ def _create_sbml_reactions(
                 case Derived():
                     # SBML uses species references for derived stoichiometries
                     # So we need to create a assignment rule and then refer to it
-                    reference = f"{compound_id}ref"
-                    if sbml_model.getAssignmentRuleByVariable(
-                        _convert_id_to_sbml(id_=reference, prefix="AR")
-                    ):
-                        # Another reaction already has a computed coefficient for this
-                        # compound: every species reference needs its own rule
-                        reference = f"{compound_id}ref_{name}"
+                    reference = _free_reference_id(
+                        model, sbml_model, compound_id=compound_id, rxn_name=name
+                    )
                     _create_derived_parameter(sbml_model, reference, factor)
 
                     # The rule carries the signed coefficient, so it is a product
